@@ -1100,7 +1100,7 @@ pub fn units() -> Vec<Unit> {
     Unit {
         module: "Gen.CodecFn",
         file: "lorawan-encoding/src/securityhelpers.rs",
-        more_files: vec!["lorawan-encoding/src/keys.rs"],
+        more_files: vec!["lorawan-encoding/src/keys.rs", "lorawan-encoding/src/creator.rs", "lorawan-encoding/src/packet_length.rs"],
         imports: vec![],
         items: vec![
             Newtype("MIC"),
@@ -1112,6 +1112,9 @@ pub fn units() -> Vec<Unit> {
             Fn("calculate_data_mic"),
             Fn("calculate_mic"),
             Fn("encrypt_frm_data_payload"),
+            // creator.rs: the MIC of the join messages written behind the frame
+            Const("MIC_LEN"),
+            Fn("write_mic"),
         ],
     },
     ]
